@@ -184,6 +184,7 @@ def run_phase(body, nprocs, prefix, exec_dir, watch, kill=None, extra_env=None,
     conns = {}      # fileno -> [sock, buffer]
     waiting = {}    # id -> (sock, event)
     exiting = set() # ids that reported their result: the process exits right after
+    cc_pids = {}    # id -> pid of the compiler that logical thread is currently running
 
     def reap():
         for i, pid in list(pids.items()):
@@ -206,7 +207,9 @@ def run_phase(body, nprocs, prefix, exec_dir, watch, kill=None, extra_env=None,
             ident = int(ident)
         except ValueError:
             raise HarnessError("garbled scheduler message %r" % line)
-        if msg.startswith("!result "):
+        if msg.startswith("!pid "):
+            cc_pids[ident] = int(msg[5:])
+        elif msg.startswith("!result "):
             ph.results[ident] = json.loads(msg[8:])
             exiting.add(ident)
         elif msg.startswith("!exc "):
@@ -301,6 +304,24 @@ def run_phase(body, nprocs, prefix, exec_dir, watch, kill=None, extra_env=None,
                 if still and not waiting:
                     ph.deadlock = True
                     break
+                continue
+            if kill is not None and len(kill) > 2 and kill[2] == "cc" and step == kill[1] and ph.killed_at is None:
+                # only the COMPILER of the victim is killed (a crash of the child, not of the loader):
+                # the loader goes on and must neither install nor leave a truncated library
+                v = kill[0]
+                at = waiting[v][1] if v in waiting else None
+                ph.killed_at = {"step": step, "victims": [], "compiler_of": v, "at": {str(v): at}}
+                if v in waiting and at and at.startswith("cc.") and v in cc_pids:
+                    try:
+                        os.kill(cc_pids[v], signal.SIGKILL)
+                    except OSError:
+                        pass
+                    waiting.pop(v)
+                    late = settle([v], block_timeout)
+                    if late:
+                        blocked.update(late)
+                else:
+                    ph.killed_at["not_at_compiler"] = True
                 continue
             if kill is not None and step == kill[1] and ph.killed_at is None:
                 victims = ids if kill[0] == "all" else [kill[0]]
